@@ -10,7 +10,7 @@ let fmt_fail ?(bigoff = false) (fail : int option) (stack : string) (dlo : int o
   | None ->
       let probes = if dlo = None then 0 else i c.probes in
       if stack = "none" then
-        Printf.sprintf "calls=%s err=0 probes=%d cmps=%d post=%d%s" (fmt_calls cs) probes (i c.cmps) (i c.post_cmps)
+        Printf.sprintf "calls=%s err=0 probes=%d cmps=%d post=%d ss=1%s" (fmt_calls cs) probes (i c.cmps) (i c.post_cmps)
           (if bigoff && dlo = None then " bigoff_same=1" else "")
       else Printf.sprintf "calls=%s err=0 probes=%d cmps=-" (fmt_calls cs) probes
 
